@@ -84,10 +84,11 @@ def reachable_bodies(mir, roots, pkgs=None, stop=None, include_closures=True):
     """workspace bodies reachable from `roots` (Body objects) through resolved calls (same package or any package in pkgs)
     and through closures defined in reached bodies"""
     by_path = {}
-    for b in mir.bodies():
+    for b in mir.raw_bodies():
         if b.promoted is not None: continue
         if pkgs is not None and b.pkg not in pkgs: continue
         by_path.setdefault(b.path, []).append(b)
+    roots = [getattr(r, "origin", r) for r in roots]
     children = {}
     for bs in by_path.values():
         for b in bs:
